@@ -276,12 +276,18 @@ class FermionicArray(AbelianArray):
         return super(FermionicArray, x).clip(a_min, a_max)
 
     def _map_blocks(self, fn_block=None, fn_sector=None):
+        if fn_sector is not None:
+            # need to update phase keys as well, but only those of stored
+            # blocks: an entry left behind by a dropped block must not be
+            # re-keyed (possibly onto the sector of another block)
+            phases = {
+                fn_sector(s): p
+                for s, p in self._phases.items()
+                if s in self._blocks
+            }
         super()._map_blocks(fn_block, fn_sector)
         if fn_sector is not None:
-            # need to update phase keys as well
-            self.modify(
-                phases={fn_sector(s): p for s, p in self._phases.items()}
-            )
+            self.modify(phases=phases)
 
     def transpose(self, axes=None, phase=True, inplace=False):
         """Transpose the fermionic array, by default accounting for the phases
